@@ -780,6 +780,89 @@ fn main() {
         },
     );
 
+    // ------------------------------------------------------------------------------------- STR
+    // String literals: what is written between the quotes, with the escapes \" \' \/ \\ \n \t \r
+    // replaced (the lexer keeps literals without a backslash as a borrowed slice and builds an owned
+    // string for the others: two routes). Every sequence of <= 3 pieces, both quote styles; the value
+    // is observed printed, measured, compared with the same text from the context, and as a map key.
+    {
+        // (spelling inside the literal, the characters it stands for)
+        let pieces: Vec<(&str, &str)> = vec![
+            ("a", "a"), ("é", "é"), (" ", " "), ("\\\"", "\""), ("\\'", "'"), ("\\/", "/"), ("\\\\", "\\"), ("\\n", "\n"), ("\\t", "\t"), ("\\r", "\r"),
+            ("{{", "{{"), ("%}", "%}"),
+        ];
+        let bad: Vec<&str> = vec!["\\x", "\\u", "\\0", "\\ ", "\\é", "\\N"];
+        let np = pieces.len() as u64;
+        let total: u64 = 1 + np + np * np + np * np * np;
+        run.family(
+            Family::new(
+                "STR",
+                np + 1,
+                &format!("every sequence of <= 3 of {} literal pieces (plain characters, the seven escapes, delimiter look-alikes) in double and in single quotes: printed, `| length`, `==` the same text from the context, as a map-literal key looked up again ({total} literals x 2 quote styles x 4 observations); {} unknown escapes and a trailing backslash must be refused", pieces.len(), bad.len()),
+            ),
+            |item, acc: &mut Acc| {
+                // item = first piece (np = the empty literal and the refusals)
+                let mut seqs: Vec<Vec<usize>> = vec![];
+                if item == np {
+                    seqs.push(vec![]);
+                    for b in &bad {
+                        for q in ['"', '\''] {
+                            for src in [format!("{{{{ {q}a{b}{q} }}}}"), format!("{{{{ {q}{b}{q} }}}}")] {
+                                let out = engine::render_str(&tera, &src, &tera::Context::new(), false);
+                                if !is_syntax_error(&out) {
+                                    acc.violation("STR:unknown-escape-accepted", format!("`{src}` gave {}, an unknown escape must be refused", out.show()), || json!({"template": src}));
+                                }
+                                acc.case(true, out.class());
+                            }
+                        }
+                    }
+                    for src in ["{{ \"a\\\" }}", "{{ 'a\\' }}"] {
+                        let out = engine::render_str(&tera, src, &tera::Context::new(), false);
+                        if !is_syntax_error(&out) {
+                            acc.violation("STR:unterminated-accepted", format!("`{src}` gave {}, the literal never closes", out.show()), || json!({"template": src}));
+                        }
+                        acc.case(true, out.class());
+                    }
+                } else {
+                    let a = item as usize;
+                    seqs.push(vec![a]);
+                    for b in 0..pieces.len() {
+                        seqs.push(vec![a, b]);
+                        for c in 0..pieces.len() {
+                            seqs.push(vec![a, b, c]);
+                        }
+                    }
+                }
+                for seq in seqs {
+                    let want: String = seq.iter().map(|&i| pieces[i].1).collect();
+                    for q in ['"', '\''] {
+                        // the other quote character may stand unescaped inside; the same one needs its escape
+                        let spelled: String = seq.iter().map(|&i| pieces[i].0).collect();
+                        let lit = format!("{q}{spelled}{q}");
+                        let ctx = mccore::vals::context(&[("w", &V::s(&want))]);
+                        let checks: [(String, String); 4] = [
+                            (format!("{{{{ {lit} }}}}"), want.clone()),
+                            (format!("{{{{ {lit} | length }}}}"), want.chars().count().to_string()),
+                            (format!("{{{{ {lit} == w }}}}|{{{{ w == {lit} }}}}"), "true|true".to_string()),
+                            (format!("{{{{ {{{lit}: 1, \"zz\": 2}}[w] }}}}"), "1".to_string()),
+                        ];
+                        for (src, expect) in checks {
+                            let out = engine::render_str(&tera, &src, &ctx, false);
+                            if out.ok() != Some(expect.as_str()) {
+                                acc.violation(
+                                    format!("STR:wrong-value:{}", if src.contains("length") { "length" } else if src.contains("==") { "eq" } else if src.contains("zz") { "map-key" } else { "print" }),
+                                    format!("`{src}` renders {}, expected {expect:?} (the literal stands for {want:?})", out.show()),
+                                    || json!({"template": src, "literal_value": want}),
+                                );
+                            }
+                            acc.case(spelled.contains('\\'), out.class());
+                        }
+                    }
+                }
+            },
+        );
+    }
+
     // ------------------------------------------------------------------------------------- D
     let doti = fam::doti_cases();
     run.family(Family::new("D", 1, "`.i` indexing of arrays: 5 programs"), |_item, acc: &mut Acc| {
